@@ -324,7 +324,7 @@ impl SwiftField for Field59 {
         Self: Sized,
     {
         match variant {
-            None => {
+            None | Some("") => {
                 let field = Field59NoOption::parse(value)?;
                 Ok(Field59::NoOption(field))
             }
@@ -336,10 +336,9 @@ impl SwiftField for Field59 {
                 let field = Field59F::parse(value)?;
                 Ok(Field59::F(field))
             }
-            _ => {
-                // Unknown variant, fall back to default parse behavior
-                Self::parse(value)
-            }
+            Some(other) => Err(ParseError::InvalidFormat {
+                message: format!("Field59 has no option '{}'", other),
+            }),
         }
     }
 
@@ -389,7 +388,7 @@ impl SwiftField for Field59Debtor {
         Self: Sized,
     {
         match variant {
-            None => {
+            None | Some("") => {
                 let field = Field59NoOption::parse(value)?;
                 Ok(Field59Debtor::NoOption(field))
             }
@@ -397,10 +396,9 @@ impl SwiftField for Field59Debtor {
                 let field = Field59A::parse(value)?;
                 Ok(Field59Debtor::A(field))
             }
-            _ => {
-                // Unknown variant, fall back to default parse behavior
-                Self::parse(value)
-            }
+            Some(other) => Err(ParseError::InvalidFormat {
+                message: format!("Field59Debtor has no option '{}'", other),
+            }),
         }
     }
 
